@@ -1,6 +1,265 @@
-(* RefModel/Proofs.v — proofs about RefModel/Model.v and Spec.v *)
-From PV Require Import Base.Prelude Wire.SeqSet Wire.SeqSetProofs RefModel.Flags RefModel.Model RefModel.Spec.
+(* RefModel/Proofs.v — the refinement theorem: for every program the model of
+   pymap's message commands (Model.v) and the reference spec (Spec.v) give the
+   same responses and end in the same abstract state. *)
+From Coq Require Import Sorting.Sorted RelationClasses.
+From PV Require Import Base.Prelude Wire.SeqSet RefModel.Flags RefModel.Model RefModel.Spec
+  RefModel.BoxLemmas RefModel.AddrProofs RefModel.CompareProofs RefModel.LoopProofs
+  RefModel.SimBase RefModel.SimStore RefModel.SimOther.
 Local Open Scope N_scope.
 
-Lemma set_seen_rfc a : attr_set_seen a = rfc_sets_seen a.
-Proof. destruct a as [[] s c]; reflexivity. Qed.
+Lemma sim_step st c : Inv st -> sim_ok st c.
+Proof.
+  intros HI. destruct c.
+  - apply sim_select, HI.
+  - apply sim_append, HI.
+  - apply sim_store, HI.
+  - apply sim_expunge, HI.
+  - apply sim_copy, HI.
+  - apply sim_move, HI.
+  - apply sim_fetch, HI.
+  - apply sim_close, HI.
+Qed.
+
+Theorem refines prog : forall st, Inv st ->
+  snd (run st prog) = snd (spec_run (abs st) prog) /\
+  abs (fst (run st prog)) = fst (spec_run (abs st) prog) /\
+  Inv (fst (run st prog)).
+Proof.
+  induction prog as [|c r IH]; intros st HI; cbn [run spec_run].
+  - cbn. split; [reflexivity|split; [reflexivity|exact HI]].
+  - destruct (sim_step st c HI) as (Ho & Ha & HI1).
+    destruct (step st c) as [st1 o] eqn:Es. destruct (spec_step (abs st) c) as [sp1 o'] eqn:Ep.
+    cbn [fst snd] in *. subst o' sp1.
+    destruct (IH st1 HI1) as (Hos & Has & HI2).
+    destruct (run st1 r) as [st2 os] eqn:Er. destruct (spec_run (abs st1) r) as [sp2 os'] eqn:Epr.
+    cbn [fst snd] in *. subst os' sp2. split; [reflexivity|split; [reflexivity|exact HI2]].
+Qed.
+
+Theorem refines_main prog st : Inv st ->
+  snd (run st prog) = snd (spec_run (abs st) prog) /\
+  abs (fst (run st prog)) = fst (spec_run (abs st) prog).
+Proof. intros HI. destruct (refines prog st HI) as (H1 & H2 & _). split; assumption. Qed.
+
+(* ---- the invariant, decidably, for states without a selection *)
+Fixpoint asc_b (l : list N) : bool :=
+  match l with
+  | [] => true
+  | x :: r => match r with [] => true | y :: _ => (x <? y) && asc_b r end
+  end.
+Definition box_ok_b (b : mbox) : bool :=
+  asc_b (uids_of (b_msgs b))
+  && forallb (fun u => (0 <? u) && (u <=? b_maxuid b)) (uids_of (b_msgs b)).
+Definition maildir_ok_b (bs : boxes) : bool :=
+  match bs with
+  | [] => true
+  | (_, b0) :: _ =>
+    negb (mem FWild (b_perm b0))
+    && forallb (fun nb => fset_eqb (b_perm (snd nb)) (b_perm b0) && subset (b_perm b0) (b_perm (snd nb))
+                          && forallb (fun m => subset (m_flags m) (b_perm (snd nb))) (b_msgs (snd nb))) bs
+  end.
+
+Lemma asc_b_sound l : asc_b l = true -> asc l.
+Proof.
+  intros H. apply Sorted_StronglySorted; [intros x y z; lia|].
+  induction l as [|x r IH]; [constructor|]. cbn [asc_b] in H. destruct r as [|y t].
+  - repeat constructor.
+  - apply andb_true_iff in H. destruct H as [H1 H2]. constructor; [apply IH, H2|].
+    constructor. apply N.ltb_lt, H1.
+Qed.
+
+Lemma box_ok_b_sound b : box_ok_b b = true -> box_ok b.
+Proof.
+  unfold box_ok_b. intros H. apply andb_true_iff in H. destruct H as [H1 H2]. split.
+  - apply asc_b_sound, H1.
+  - apply Forall_forall. intros u Hu. rewrite forallb_forall in H2. specialize (H2 u Hu).
+    apply andb_true_iff in H2. rewrite N.ltb_lt, N.leb_le in H2. exact H2.
+Qed.
+
+(* states the harness starts from: nothing selected, well-formed mailboxes;
+   for dict nothing more is needed *)
+Definition init_ok (st : state) : bool :=
+  match st_sel st with
+  | Some _ => false
+  | None => forallb (fun nb => box_ok_b (snd nb)) (st_boxes st)
+            && match st_bk st with Dict => true | Maildir => false end
+  end.
+
+Lemma init_ok_Inv st : init_ok st = true -> Inv st.
+Proof.
+  unfold init_ok. destruct (st_sel st) eqn:Es; [discriminate|]. intros H.
+  apply andb_true_iff in H. destruct H as [H1 H2]. split; [|split].
+  - apply Forall_forall. intros nb Hnb. rewrite forallb_forall in H1. apply box_ok_b_sound, H1, Hnb.
+  - intros Hk. rewrite Hk in H2. discriminate.
+  - rewrite Es. exact I.
+Qed.
+
+(* maildir: one keyword table everywhere, stored flags inside it *)
+Definition init_ok_maildir (st : state) (P : fset) : bool :=
+  match st_sel st with
+  | Some _ => false
+  | None => forallb (fun nb => box_ok_b (snd nb)) (st_boxes st)
+            && negb (mem FWild P)
+            && forallb (fun nb => forallb (fun m => subset (m_flags m) P) (b_msgs (snd nb))) (st_boxes st)
+  end.
+
+Lemma init_ok_maildir_Inv st P :
+  init_ok_maildir st P = true -> Forall (fun nb => b_perm (snd nb) = P) (st_boxes st) -> Inv st.
+Proof.
+  unfold init_ok_maildir. destruct (st_sel st) eqn:Es; [discriminate|]. intros H HP.
+  apply andb_true_iff in H. destruct H as [H H3]. apply andb_true_iff in H. destruct H as [H1 H2].
+  split; [|split].
+  - apply Forall_forall. intros nb Hnb. rewrite forallb_forall in H1. apply box_ok_b_sound, H1, Hnb.
+  - intros _. exists P. split; [apply negb_true_iff, H2|].
+    apply Forall_forall. intros nb Hnb. rewrite Forall_forall in HP. split; [apply HP, Hnb|].
+    apply Forall_forall. intros m Hm. rewrite forallb_forall in H3. specialize (H3 nb Hnb).
+    rewrite forallb_forall in H3. apply H3, Hm.
+  - rewrite Es. exact I.
+Qed.
+
+(* ---- what the spec's STORE does, flag by flag (dict: stores any flag) *)
+Definition permitted (P : fset) (f : flag) : bool :=
+  mem FWild (perm_defined P) || mem f (perm_defined P).
+
+Lemma mem_perm_intersect P fl f :
+  mem f (perm_intersect (perm_defined P) fl) = mem f fl && permitted P f.
+Proof.
+  unfold perm_intersect, permitted. destruct (mem FWild (perm_defined P)); cbn [orb].
+  - rewrite andb_true_r. reflexivity.
+  - apply mem_inter.
+Qed.
+
+Theorem store_exact b op fl m f :
+  mem f (store_flags Dict b op fl m) =
+  match op with
+  | OpReplace => mem f fl && permitted (b_perm b) f
+  | OpAdd => mem f (m_flags m) || (mem f fl && permitted (b_perm b) f)
+  | OpDelete => mem f (m_flags m) && negb (mem f fl && permitted (b_perm b) f)
+  end.
+Proof.
+  unfold store_flags. cbn [storable]. destruct op; cbn [op_apply].
+  - apply mem_perm_intersect.
+  - rewrite mem_union, mem_perm_intersect. reflexivity.
+  - rewrite mem_diff, mem_perm_intersect. reflexivity.
+Qed.
+
+(* \Recent is never permitted, so STORE cannot set or clear it *)
+Lemma recent_not_permitted P : mem FWild P = false -> permitted P FRecent = false.
+Proof.
+  intros Hw. unfold permitted, perm_defined. rewrite !mem_diff, Hw. cbn. apply andb_false_r.
+Qed.
+
+(* ---- MOVE = COPY, then removal of the originals (on the mailboxes) *)
+Theorem move_is_copy_then_remove st uid ss dest s b d :
+  sp_sel st = Some s -> ss_ro s = false ->
+  lookup (ss_box s) (sp_boxes st) = Some b -> lookup dest (sp_boxes st) = Some d -> b_ro d = false ->
+  let after_copy := sp_boxes (fst (spec_copy st uid ss dest)) in
+  sp_boxes (fst (spec_move st uid ss dest)) =
+  match lookup (ss_box s) after_copy with
+  | Some b1 => set_box (ss_box s)
+                 (set_msgs b1 (filter (fun m => negb (memN (m_uid m)
+                                 (uids_of (selected_msgs uid ss (b_msgs b))))) (b_msgs b1)))
+                 after_copy
+  | None => after_copy
+  end.
+Proof.
+  intros Hs Hro Hb Hd Hrd. unfold spec_move, spec_copy. rewrite Hs, Hro, Hb, Hd, Hrd.
+  unfold deliver. cbn [fst sp_boxes sset].
+  destruct (lookup (ss_box s) (set_box dest _ (sp_boxes st))) as [b1|] eqn:E1.
+  - reflexivity.
+  - exfalso. destruct (N.eq_dec (ss_box s) dest) as [Ee|Ne].
+    + rewrite Ee, lookup_set_box_same, Hd in E1. discriminate.
+    + rewrite lookup_set_box_other, Hb in E1 by congruence. discriminate.
+Qed.
+
+(* ---- in one session a STORE/FETCH never meets an expunged message *)
+Lemma spec_no_expungeissued st c : o_code (snd (spec_step st c)) <> CExpungeIssued.
+Proof.
+  destruct c; cbn [spec_step];
+    unfold spec_select, spec_append, spec_store, spec_expunge, spec_copy, spec_move,
+           spec_fetch, spec_close, sreply, deliver, scopy_code;
+    repeat match goal with
+           | |- context [match ?x with _ => _ end] =>
+             match type of x with
+             | option _ => destruct x
+             | bool => destruct x
+             | list _ => destruct x
+             | (_ * _)%type => destruct x
+             end
+           end; cbn; discriminate.
+Qed.
+
+Theorem no_expungeissued prog st : Inv st ->
+  Forall (fun o => o_code o <> CExpungeIssued) (snd (run st prog)).
+Proof.
+  intros HI. destruct (refines prog st HI) as (Ho & _ & _). rewrite Ho. clear Ho HI.
+  generalize (abs st). induction prog as [|c r IH]; intros sp; cbn [spec_run]; [constructor|].
+  pose proof (spec_no_expungeissued sp c) as Hc.
+  destruct (spec_step sp c) as [sp1 o]. specialize (IH sp1).
+  destruct (spec_run sp1 r) as [sp2 os]. cbn [snd] in *. constructor; assumption.
+Qed.
+
+(* ---- non-vacuity: a dict-like state and a program with every command *)
+Definition ex_boxes : boxes :=
+  [(0, mkBox [mkMsg 101 [FSeen] 10 1 false; mkMsg 102 [FAnswered; FSeen] 20 2 false;
+              mkMsg 103 [FFlagged] 30 3 false; mkMsg 104 [] 40 4 true] 104 false
+             [FSeen; FAnswered; FFlagged; FDeleted; FDraft]);
+   (1, mkBox [mkMsg 101 [FSeen] 50 5 false] 101 false [FSeen; FAnswered; FFlagged; FDeleted; FDraft]);
+   (2, mkBox [mkMsg 101 [] 60 6 true] 101 true [FSeen; FAnswered; FFlagged; FDeleted; FDraft])].
+Definition ex_prog : list cmd :=
+  [CSelect 0 false;
+   CStore false [SRange SMax (SNum 2); SOne (SNum 2)] OpAdd false [FDeleted; FKw 0; FRecent];
+   CFetch true [SRange (SNum 103) SMax] [mkAttr AFlags false false; mkAttr ABody true true];
+   CAppend 0 [FSeen; FKw 1; FRecent] 70 7;
+   CCopy false [SOne (SNum 1); SOne SMax] 0;
+   CMove true [SRange (SNum 1) (SNum 102)] 1;
+   CStore true [SOne (SNum 103)] OpReplace true [FDeleted];
+   CExpunge (Some [SOne (SNum 104)]); CExpunge None;
+   CCopy false [SOne (SNum 1)] 2; CMove false [SOne SMax] 0;
+   CClose; CFetch false [SOne (SNum 1)] []; CSelect 1 true; CMove false [SOne (SNum 1)] 0; CClose].
+Example refines_example :
+  let st := mkState Dict ex_boxes None in
+  init_ok st = true /\
+  map o_cond (snd (run st ex_prog))
+  = [OK; OK; OK; OK; OK; OK; OK; OK; OK; NO; OK; OK; BAD; OK; NO; OK] /\
+  snd (run st ex_prog) = snd (spec_run (abs st) ex_prog) /\
+  abs (fst (run st ex_prog)) = fst (spec_run (abs st) ex_prog).
+Proof. vm_compute. repeat split. Qed.
+
+(* ---- maildir COPY/MOVE between folders with different keyword tables
+   (finding C10-F3): the carried flag set can contain a flag the original did
+   not have; with one shared table (Inv, maildir_ok) flags are carried as
+   they are. *)
+Theorem keyword_tables_refuted :
+  exists src dst fl f, mem f (maildir_carry src dst fl) = true /\ mem f fl = false.
+Proof.
+  exists [FKw 0; FKw 1], [FKw 2; FKw 0], [FKw 0; FSeen], (FKw 2). vm_compute. split; reflexivity.
+Qed.
+
+Lemma index_of_nth f t i : index_of f t = Some i -> nth_error t i = Some f.
+Proof.
+  revert i. induction t as [|g r IH]; intros i H; cbn [index_of] in H; [discriminate|].
+  destruct (flag_eqb f g) eqn:E.
+  - inversion H; subst. apply flag_eqb_eq in E. subst. reflexivity.
+  - destruct (index_of f r) as [j|]; [|discriminate]. inversion H; subst. cbn. apply IH. reflexivity.
+Qed.
+
+Lemma index_of_mem f t : mem f t = true -> exists i, index_of f t = Some i.
+Proof.
+  induction t as [|g r IH]; cbn [mem existsb index_of]; [discriminate|].
+  destruct (flag_eqb f g); [eexists; reflexivity|]. cbn [orb]. intros H.
+  destruct (IH H) as (i & ->). eexists; reflexivity.
+Qed.
+
+Theorem keyword_same_table t fl :
+  (forall f, mem f fl = true -> is_sys5 f = true \/ mem f t = true) ->
+  maildir_carry t t fl = fl.
+Proof.
+  intros H. unfold maildir_carry. induction fl as [|f r IH]; [reflexivity|].
+  cbn [flat_map]. rewrite IH.
+  - unfold carry_flag. destruct (H f) as [Hs|Hm].
+    + cbn [mem existsb]. rewrite flag_eqb_refl. reflexivity.
+    + rewrite Hs. reflexivity.
+    + destruct (is_sys5 f); [reflexivity|]. destruct (index_of_mem f t Hm) as (i & Hi).
+      rewrite Hi, (index_of_nth f t i Hi). reflexivity.
+  - intros g Hg. apply H. cbn [mem existsb]. fold (mem g r). rewrite Hg. apply orb_true_r.
+Qed.
